@@ -195,13 +195,59 @@ func (e *Engine) rangeInit(fr *Frame, st *State, x *ssa.Range) {
 		fr.regs[x] = Value{T: []*Term{BVConst(0, RefSort)}}
 		return
 	}
+	if isStringType(x.X.Type()) {
+		fr.iters[x] = &iterInfo{isMap: false, t: x.X.Type(), x: v}
+		st.ghost[iterKey(fr, x)] = BVConst(0, 64)
+		fr.regs[x] = Value{T: []*Term{BVConst(0, RefSort)}}
+		return
+	}
 	unsup("range over %s", x.X.Type())
+}
+
+func iterKey(fr *Frame, x *ssa.Range) string { return fmt.Sprintf("iter.%d.%s", fr.id, x.Name()) }
+
+// rangeNextString: the iterator position advances by the width (1..4) of the
+// decoded rune; ASCII bytes decode to themselves with width 1.
+func (e *Engine) rangeNextString(fr *Frame, st *State, x *ssa.Next, it *iterInfo) {
+	rg := x.Iter.(*ssa.Range)
+	key := iterKey(fr, rg)
+	pos, ok := st.ghost[key]
+	if !ok {
+		pos = FreshVar("iterpos", 64)
+	}
+	s := it.x.T
+	zero := BVConst(0, IntSort)
+	st.assume(And(BVSle(zero, pos), BVSle(pos, s[2])))
+	has := BVSlt(pos, s[2])
+	l := leavesOf(types.Typ[types.Uint8])[0]
+	b0 := e.memRead(st, byteMemName, elemKS, l, []*Term{s[0], BVAdd(s[1], pos)})
+	w := FreshVar("runew", IntSort)
+	r := FreshVar("rune", 32)
+	ascii := BVUlt(b0, BVConst(0x80, 8))
+	st.assume(And(BVSle(BVConst(1, IntSort), w), BVSle(w, BVConst(4, IntSort))))
+	st.assume(Implies(has, BVSle(BVAdd(pos, w), s[2])))
+	st.assume(Implies(ascii, And(Eq(w, BVConst(1, IntSort)), Eq(r, ZeroExt(b0, 32)))))
+	st.assume(Implies(Not(ascii), And(BVUle(BVConst(0x80, 32), r), BVUle(r, BVConst(0x10FFFF, 32)))))
+	st.ghost[key] = Ite(has, BVAdd(pos, w), pos)
+	tt := x.Type().(*types.Tuple)
+	out := []*Term{has}
+	if nLeaves(tt.At(1).Type()) == 1 {
+		out = append(out, Ite(has, pos, zero))
+	}
+	if nLeaves(tt.At(2).Type()) == 1 {
+		out = append(out, Ite(has, r, BVConst(0, 32)))
+	}
+	fr.regs[x] = Value{T: out}
 }
 
 func (e *Engine) rangeNext(fr *Frame, st *State, x *ssa.Next) {
 	it := fr.iters[x.Iter.(*ssa.Range)]
-	if it == nil || !it.isMap {
-		unsup("next on non-map iterator")
+	if it == nil {
+		unsup("next on unknown iterator")
+	}
+	if !it.isMap {
+		e.rangeNextString(fr, st, x, it)
+		return
 	}
 	mt := it.t.Underlying().(*types.Map)
 	ref := it.x.term()
@@ -214,13 +260,18 @@ func (e *Engine) rangeNext(fr *Frame, st *State, x *ssa.Next) {
 	st.assume(Implies(ok, present))
 	st.assume(Implies(ok, Neq(ref, BVConst(0, RefSort))))
 	ts := []*Term{ok}
-	zk := zeroTerms(mt.Key())
-	for i := range kts {
-		ts = append(ts, Ite(ok, kts[i], zk[i]))
+	tt := x.Type().(*types.Tuple)
+	if nLeaves(tt.At(1).Type()) > 0 {
+		zk := zeroTerms(mt.Key())
+		for i := range kts {
+			ts = append(ts, Ite(ok, kts[i], zk[i]))
+		}
 	}
-	zv := zeroTerms(mt.Elem())
-	for i := range val {
-		ts = append(ts, Ite(ok, val[i], zv[i]))
+	if nLeaves(tt.At(2).Type()) > 0 {
+		zv := zeroTerms(mt.Elem())
+		for i := range val {
+			ts = append(ts, Ite(ok, val[i], zv[i]))
+		}
 	}
 	fr.regs[x] = Value{T: ts}
 }
